@@ -234,6 +234,9 @@ class Inference:
             return self.flat(au[0]) if res == 'arg0' and au else res
         if nm.rsplit('.', 1)[-1] in ('floor', 'ceil', 'trunc', 'rint', 'fix', 'int') and au and self.flat(au[0]) == V:
             self.problem('ABSOLUTE-LEVEL', t, f'{nm} quantises a V-valued term to whole units: an absolute resolution in signal units')
+        if nm.rsplit('.', 1)[-1] in ('floor', 'ceil', 'trunc', 'rint', 'fix', 'int', 'round', 'around') and au and self.flat(au[0]) in (SEC, HZ, FS):
+            # whole seconds / whole Hz exist only in one unit of time: the same recording described with fs and f_range multiplied by c has other whole values
+            self.problem('ABSOLUTE-LEVEL', t, f'{nm} quantises a {name(self.flat(au[0]))}-valued term to whole units: the result depends on the unit in which time / frequency is expressed')
         if nm.rsplit('.', 1)[-1] in ('round', 'around', 'round_'):
             # rounding to a fixed number of decimals is an absolute resolution in the units of the operand
             if au and self.flat(au[0]) == V:
